@@ -3,7 +3,7 @@
 Quick-tier Kani harnesses are those measured (kani/timings.json, 14 parallel jobs) to finish well inside the
 per-harness timeout; slower ones run in the thorough tier only. Harness classes that never finished (schema_*,
 failw*) are not registered (stated in DESIGN.md)."""
-import json, os, re, sys
+import json, re, os, re, sys
 ROOT = os.path.dirname(os.path.dirname(os.path.abspath(__file__)))
 sys.path.insert(0, os.path.join(ROOT, "tools"))
 import kani_run
@@ -38,9 +38,9 @@ def add(pid, verus, prefixes, only=None, **kw):
 TB = ["Verus environment assumptions (std::io Write/Read, byteorder, vstd utf8): verus/env/*.vrs", "Kani stubs: RandomState::new, alloc::fmt::format"]
 add("C01", ["v_codec"], ["leaf_", "fam_rt_", "file_"],
     level_text="Round trip proved (a) by Verus for the real primitive readers/writers and the generic container codecs (Option, Result, Box, tuples, String, (), regular_deserialize_vec) as lemma_roundtrip over their contracts, for all values and all nestings; (b) by loop-free Kani harnesses on the compiled crates for every leaf type and every member of the derive family (all values), and for the schema-less container. Bounded: Vec<T> bodies (length 2), definitions (finite family).",
-    level_note="Compressed and encrypted containers are not covered (bzip2 is C code; ring is assembly). Trusted: Verus I/O environment, extraction rules, Kani/CBMC, two Kani stubs.",
+    level_note="Compressed and encrypted containers are outside both verifiers (bzip2 is C code; ring is assembly): only bounded native runs cover them. Trusted: Verus I/O environment, extraction rules, Kani/CBMC, two Kani stubs.",
     technique="Verus function contracts + round-trip lemmas on extracted code; Kani assume/assert contracts on monomorphic wrappers",
-    assumptions=["compressed (bzip2) and encrypted (ring) containers not modelled", "derive macro generators verified only through their output on the generated family"], trusted_base=TB)
+    assumptions=["compressed (bzip2) and encrypted (ring) containers: no proof, bounded native runs only", "derive macro generators verified only through their output on the generated family"], trusted_base=TB)
 add("C02", ["v_codec"], ["leaf_", "fam_rt_", "file_SPlain", "file_EData", "fam_older_"],
     level_text="Every write_*/serialize function under contract is proved to append exactly the documented encoding (absolute bytes from an independent specification / reference encoder): Verus for primitives and generic containers (all values, unbounded), Kani per leaf and per derive-family member incl. header layout.",
     level_note="Reference encoder and enc spec functions are the oracle (written from the format documentation). Definitions: finite family.",
@@ -63,36 +63,36 @@ add("C06", ["v_codec", "v_schemacodec"], ["mal_"],
     technique="Kani harnesses over fully symbolic input bytes", trusted_base=TB)
 add("C07", ["v_codec", "v_crypto"], ["trunc_"],
     level_text="lemma_prefix (Verus): no strict prefix of an encoding is accepted, generically for the codec impls under contract; Kani: for each container-family type, every cut offset of every saved schema-less file is rejected (symbolic value and cut).",
-    level_note="Compressed / encrypted containers not covered.",
+    level_note="Compressed / encrypted containers: bounded native runs only (real bzip2 / ring).",
     technique="Verus lemma over decoder contracts; Kani truncation harnesses", trusted_base=TB)
 add("C08", ["v_codec", "v_crypto"], ["shortw_", "chunk1_", "chunk3_"],
     level_text="Every write_*/serialize under Verus contract has the Err-clause old ⊑ new ⊑ old ++ enc for every behaviour of the underlying writer (all failure offsets), io::Error maps to SavefileError::IOError, no panic; Kani: short writes (1 byte/call) and chunked reads (1 and 3 bytes/call) give identical bytes/values on the real container code.",
-    level_note="Hard-failure schedules through save_impl and derive output are not decided by Kani (CBMC does not terminate on io::Error paths); crypto wrapper not covered.",
+    level_note="Hard-failure schedules through save_impl and derive output are not decided by Kani (CBMC does not terminate on io::Error paths) and CryptoWriter is outside Verus' subset: both are covered only by bounded native fault-injection runs.",
     technique="Verus error-path postconditions; Kani chunking harnesses", trusted_base=TB)
 add("C09", [], ["abi_"],
     level_text="Callee contract and caller contract of the real macro-generated trampolines for one exported trait (plain args, versioned struct by value/return, reference by pointer or serialized): all argument values; ownership (drop exactly once).",
-    level_note="Bounded over definitions (one trait, three methods). Panic transport, closures/boxed traits/futures, FlexBuffer spill not covered.",
+    level_note="Bounded over definitions (one trait, three methods) for the proofs. Connection set-up, closures and boxed closures in both directions, drop counts and panic transport are covered only by bounded native end-to-end runs (two interface versions); futures and the FlexBuffer spill path are not covered.",
     technique="Kani contract harnesses on generated trampolines", trusted_base=TB)
 add("C10", [], ["abi_callee_pt", "abi_caller_pt", "abi_callee_add", "abi_caller_add"],
     level_text="Arguments and return values are transmitted in the negotiated version's format (callee built at version 1, negotiated 0 and 1): retained fields unchanged, unknown fields defaulted.",
-    level_note="Negotiation itself (min of versions) and analyze_and_create not covered. One trait.",
+    level_note="Negotiation (min of versions), analyze_and_create, methods present on one side only and rejection of incompatible signatures are covered only by bounded native end-to-end runs (one interface in versions 0 and 1).",
     technique="Kani contract harnesses on generated trampolines", trusted_base=TB)
 add("C11", ["v_layout"], ["abi_callee_ref", "abi_caller_ref"],
     level_text="layout_compatible(a,b) ==> same_layout(a,b) and arg_layout_compatible == Ok(true) ==> identical native layout or trait-like, for all schema pairs (Verus, unbounded); an argument travels as a pointer iff its mask bit is set (Kani on trampolines).",
-    level_note="Mask computation in analyze_and_create and truthfulness of recorded layout facts not covered; other compilers not decidable here.",
+    level_note="Mask computation in analyze_and_create: bounded native runs only. Truthfulness of the layout facts the derive macro records is not covered; other compilers are not decidable here.",
     technique="Verus contracts on extracted layout_compatible family", trusted_base=TB)
 add("C14", ["v_crypto"], [],
     level_text="CryptoReader::read (real text, real block size) verified for all inputs, chunkings and buffer sizes against the frame contract: plaintext is handed out only from frames read completely, with a declared length within bounds, that authenticated under the next nonce, in order; a short count only at a clean end between frames; no panic, no overflow, no out-of-bounds. load_encrypted_file: key == SHA-256 of exactly the password bytes, missing file / short nonce are errors, no reachable panic. Relative to the IDEAL-AEAD contract for ring (unforgeability and SHA-256 collision resistance are assumptions).",
-    level_note="Not covered: CryptoWriter::{write,flush} (local &mut aliasing outside Verus' subset), RandomNonceSequence::advance, termination of read under endless Interrupted. The property's 'any modification yields an error' follows from the contract only under the ideal-AEAD assumption.",
+    level_note="Not proved: CryptoWriter::{write,flush} (local &mut aliasing outside Verus' subset; bounded native runs with the real ring code only), RandomNonceSequence::advance, termination of read under endless Interrupted. The property's 'any modification yields an error' follows from the contract only under the ideal-AEAD assumption.",
     technique="Verus function contract + loop invariants on the extracted CryptoReader::read; ideal-AEAD environment", trusted_base=TB,
     assumptions=["ideal AEAD (ring AES-256-GCM): a chunk opens under (key, nonce) iff it is exactly what was sealed", "SHA-256 collision resistance", "std::fs::File modelled as an in-memory stream"])
 add("C13", ["v_diff", "v_schemacodec"], [],
     level_text="Schema::serialize / Schema::deserialize and all component codecs verified against enc_schema / dec_schema specifications for all schema trees and all inputs (Verus, unbounded, real function text; termination included); reflexivity and completeness of schema comparison as lemmas over the diff_schema <==> wire_equiv contract.",
-    level_note="Method tables (AbiTraitDefinition codec) assumed; format-0 reading pinned to the dec specification only (no independent old file); Vec/String extensionality assumed.",
+    level_note="Method tables (AbiTraitDefinition codec) assumed; format-0 reading is proved equal to the dec specification; that this equals the stored schema minus layout annotations is checked only by the bounded native run nschemacodec against an independent encoder; Vec/String extensionality assumed.",
     technique="Verus lemmas over function contracts", trusted_base=TB)
-add("C17", ["v_introspect"], [],
-    level_text="total_index(i) is Some <==> i < total_len() for every well-formed result (Verus, unbounded, real function text).",
-    level_note="wf of do_introspect results and introspect_len/child consistency per type not covered.",
+add("C17", ["v_introspect"], ["intro_"],
+    level_text="total_index(i) is Some <==> i < total_len() for every well-formed result (Verus, unbounded, real function text); derive-generated Introspect: children exist exactly below introspect_len() for all indices and all values (Kani, per family member).",
+    level_note="Kani: introspect_child(i) is Some <==> i < introspect_len() for ALL indices, per derive-family member (complete per type, bounded over definitions). Hand-written Introspect impls and Introspector navigation (well-formedness of its results): bounded native runs only.",
     technique="Verus function contracts", trusted_base=TB)
 add("C18", ["v_derive_arith"], ["older_", "fam_older_", "fam_packed_"],
     only=lambda n: not n.startswith("fam_packed_") or n.startswith("fam_packed_H") or n in ("fam_packed_SVerOrder", "fam_packed_SAbiRem", "fam_packed_SUpperBound"),
@@ -114,6 +114,8 @@ for pid in P:
     nat = sorted(n for n in nreg if pid in nreg[n]["props"])
     if nat:
         P[pid]["native"] = sorted(set(P[pid].get("native") or []) | set(nat))
+        fams = sorted(set(re.sub(r"_(?:[SEH][A-Za-z0-9]+)$", "_<family type>", n) for n in P[pid]["native"]))
+        P[pid]["level_note"] = (P[pid].get("level_note", "") + " BOUNDED stand-ins (native small-scope enumeration on the real code, labelled bounded, never counted as proved): " + ", ".join(fams) + ".").strip()
 P["C06"]["verus"].append("v_diff")       # diff_schema runs on untrusted schema bytes during load: no panic / no out-of-bounds
 P["C10"]["verus"].append("v_layout")     # the by-reference decision is part of version tolerance (differently versioned peers)
 json.dump(P, open(os.path.join(ROOT, "checks.json"), "w"), indent=1)
